@@ -927,6 +927,77 @@ class TDict(dict):
         return self
 
 
+class TSet(set):
+    """python set created by the code under contract (creation time for the FOREACH frame condition)"""
+    __slots__ = ('_born',)
+
+    def __init__(self, *a):
+        set.__init__(self, *a)
+        self._born = _clock()
+
+    def _w(self, op):
+        foreach_guard(self._born, f'set.{op}')
+
+    def add(self, x):
+        self._w('add')
+        set.add(self, x)
+
+    def update(self, *a):
+        self._w('update')
+        set.update(self, *a)
+
+    def discard(self, x):
+        self._w('discard')
+        set.discard(self, x)
+
+    def remove(self, x):
+        self._w('remove')
+        set.remove(self, x)
+
+    def pop(self):
+        self._w('pop')
+        return set.pop(self)
+
+    def clear(self):
+        self._w('clear')
+        set.clear(self)
+
+    def __ior__(self, o):
+        self._w('|=')
+        set.update(self, o)
+        return self
+
+    def __iand__(self, o):
+        self._w('&=')
+        set.intersection_update(self, o)
+        return self
+
+    def __isub__(self, o):
+        self._w('-=')
+        set.difference_update(self, o)
+        return self
+
+    def __ixor__(self, o):
+        self._w('^=')
+        set.symmetric_difference_update(self, o)
+        return self
+
+    def intersection_update(self, *a):
+        self._w('intersection_update')
+        set.intersection_update(self, *a)
+
+    def difference_update(self, *a):
+        self._w('difference_update')
+        set.difference_update(self, *a)
+
+    def symmetric_difference_update(self, o):
+        self._w('symmetric_difference_update')
+        set.symmetric_difference_update(self, o)
+
+    def copy(self):
+        return TSet(set.copy(self))
+
+
 def collected_chunks(lst):
     """the chunks FOREACH loops appended to ``lst`` ([] for an ordinary list), and its concrete prefix"""
     if isinstance(lst, TList) and lst._coll is not None:
